@@ -31,3 +31,27 @@ func HarnessConnect(k int, authOn int) {
 	}
 	vh.Reach("end")
 }
+
+// HarnessConnectAfterRevocation (C10): the handshake decides afresh on every connect. A stored
+// token connects (accepted), is revoked through the token service (what DELETE /access/:token
+// calls), and is presented on a new connect: refused; the other stored tokens still connect.
+func HarnessConnectAfterRevocation(k int) {
+	admin := vh.NondetStr("admin")
+	vh.Assume(!vh.StrEq(admin, ""))
+	db, toks := c10.Table(k, admin)
+	svc := service.NewTokenService(hstore.Repos(db), admin)
+	s := &server{node: vhws.NewNode(), isAuthRequired: true, tokens: svc, log: vh.Logger()}
+	s.setupNode()
+	victim := toks[vh.Choose(k)]
+	vh.Assert("C10/websocket-handshake-accepts-iff-token-valid", vhws.Connecting(s.node, victim))
+	vh.Assert("C10/revoke-succeeds", svc.DeleteToken(victim) == nil)
+	again := vhws.Connecting(s.node, victim)
+	vh.Observe("accepted_after_revocation", again)
+	vh.Assert("C10/revoked-token-never-authenticates-afterwards", !again)
+	for i := range toks {
+		if toks[i] != victim {
+			vh.Assert("C10/other-tokens-unaffected-by-revocation", vhws.Connecting(s.node, toks[i]))
+		}
+	}
+	vh.Reach("end")
+}
